@@ -210,6 +210,7 @@ func finishOutcome(res *vsched.Result, obs *hx.Log, viol []explore.Violation, no
 		sort.Strings(res.Blocked)
 		viol = append(viol, V("deadlock", "deadlock: %v", res.Blocked))
 	}
+	viol = append(viol, raceViolations()...)
 	if res.Horizon {
 		viol = append(viol, V("horizon", "step horizon exceeded (livelock/spin?): %v", res.Blocked))
 	}
